@@ -49,6 +49,9 @@ type c15Rec struct {
 	NoLast   bool   `json:"nolast,omitempty"`   // last-fragment flag missing on the final fragment
 	LieLen   int    `json:"lielen,omitempty"`   // add to the declared length of the final fragment
 	RawFrame uint32 `json:"rawframe,omitempty"` // if non-zero: a bare fragment header with this value follows the record
+	// BigFrags: non-last fragments of that many KiB each (filler bytes) sent ahead of the record's own
+	// fragments - each one within the record limit, their sum possibly far beyond it
+	BigFrags []int `json:"bigfrags,omitempty"`
 }
 
 type c15Case struct {
@@ -100,6 +103,8 @@ func genC15(t *rapid.T) c15Case {
 			r.Frags = rapid.SliceOfN(rapid.IntRange(0, 30), 1, 5).Draw(t, "frags")
 		}
 		switch rapid.IntRange(0, 19).Draw(t, "game") {
+		case 3:
+			r.BigFrags = rapid.SliceOfN(rapid.SampledFrom([]int{1, 64, 256, 511, 512, 1023, 1024, 1024}), 1, 8).Draw(t, "bigfrags")
 		case 0:
 			r.NoLast = true
 		case 1:
@@ -153,6 +158,14 @@ func (c c15Case) build(h c14H) []byte {
 			}
 		}
 		framed := nfsx.Frame(rec, r.Frags...)
+		if len(r.BigFrags) > 0 {
+			var pre []byte
+			for _, kib := range r.BigFrags {
+				pre = binary.BigEndian.AppendUint32(pre, uint32(kib<<10)) // no last-fragment bit
+				pre = append(pre, bytes.Repeat([]byte{0xAA}, kib<<10)...)
+			}
+			framed = append(pre, framed...)
+		}
 		if r.NoLast || r.LieLen != 0 {
 			// locate the final fragment header
 			off := 0
@@ -190,6 +203,7 @@ type c15Ref struct {
 	undecodable bool   // a complete record that is not a decodable call (or a framing violation) follows
 	complete  bool     // the stream ends exactly at a record boundary
 	records   int
+	limitAt   int // > 0: stream offset just after the fragment header that takes a record over the 1 MiB limit
 }
 
 // refParse splits the stream the way a conformant record-marking server must.
@@ -207,6 +221,7 @@ func refParse(stream []byte) c15Ref {
 			n := int(h & 0x7fffffff)
 			if len(rec)+n > 1<<20 {
 				ref.undecodable = true // over the documented record limit: must be refused
+				ref.limitAt = len(stream) - r.Len()
 				return ref
 			}
 			frag := make([]byte, n)
@@ -258,9 +273,11 @@ func runC15(tb stat.TB, c c15Case) {
 
 	pc := s.e.Pipe("10.9.8.7", 700)
 	writeDone := make(chan error, 1)
+	consumed := 0
 	go func() {
 		pc.C.SetWriteDeadline(time.Now().Add(8 * time.Second))
-		_, err := pc.C.Write(stream)
+		n, err := pc.C.Write(stream)
+		consumed = n
 		writeDone <- err
 	}()
 	var got []uint32
@@ -328,6 +345,14 @@ func runC15(tb stat.TB, c c15Case) {
 			return
 		}
 	}
+	// (3b) a record that goes over the limit is refused when the fragment header announcing it arrives: the
+	// server does not go on reading (and buffering) it. The pipe is synchronous, so the number of bytes the
+	// writer got rid of is the number the server read; one more maximal fragment of read-ahead is tolerated.
+	if ref.limitAt > 0 && consumed > ref.limitAt+1<<20+64<<10 {
+		if stat.Violate(tb, id, check, "record-over-limit-still-read", c, "%s: the record limit (1 MiB) is exceeded by the fragment header ending at offset %d, yet the server read %d bytes of the stream", what, ref.limitAt, consumed) {
+			return
+		}
+	}
 	// (4) bounded allocation
 	grow := ms1.TotalAlloc - ms0.TotalAlloc
 	bound := uint64(16*len(stream)) + uint64(ref.records+1)*(6*65536+64<<10) + 8<<20
@@ -355,7 +380,7 @@ func runC15(tb stat.TB, c c15Case) {
 	}
 	mutated := false
 	for _, r := range c.Recs {
-		if len(r.Muts) > 0 || r.Garbage != nil || r.NoLast || r.LieLen != 0 || r.RawFrame != 0 {
+		if len(r.Muts) > 0 || r.Garbage != nil || r.NoLast || r.LieLen != 0 || r.RawFrame != 0 || len(r.BigFrags) > 0 {
 			mutated = true
 		}
 	}
@@ -365,6 +390,9 @@ func runC15(tb stat.TB, c c15Case) {
 	}
 	if len(got) > 0 {
 		ls = append(ls, "got_replies")
+	}
+	if ref.limitAt > 0 {
+		ls = append(ls, "record_over_limit_by_fragments")
 	}
 	stat.Case(c, (len(ref.xids) > 0 && mutated) || c.Raw != nil, ls...)
 }
